@@ -147,6 +147,11 @@ func c20corpus() []c20prog {
 		`(list (- (symnum (quote int64)) (symnum (quote string))) (< (quote rune) (quote float64)) (- (symnum (quote bool)) (symnum (quote uint8))) (< (quote snoopy) (quote hornet)) (< (quote vall) (quote vinner)))`,
 		// a Go method returning a struct registered under two names, directly and held by value
 		`(def a (vall str:"x" v:(vinner s:"v" n:1))) (list (_method a MakeTwo:) (_method a HolderOfTwo:) (_method a MakeInner:) (_method a EchoSelf:))`,
+		// one record referenced from slots of different shapes of its parent (by value, by pointer, in an interface, in
+		// slices and a map): the parent's members are walked in map order while the conversion remembers what it has converted
+		`(def e (vinner s:"a" n:1)) (def a (vall v:e if:e)) (str (togo a))`,
+		`(def e (vinner s:"a" n:1)) (def a (vall if:e v:e p2:e)) (list (str (togo a)) (_method a EchoSelf:))`,
+		`(def e (vinner s:"a" n:1)) (def a (vall v:e p:e if:e ifs:[e] vs:[e] ps:[e] mif:(hash k:e))) (list (str (togo a)) (_method a EchoSelf:))`,
 		// things an earlier interpreter of the process may leave behind: a refused encoding of self-containing data, a record
 		// type named like a function of the standard setup
 		`(raw2str (json (hash a: 1 b: [1 2])))`,
@@ -281,7 +286,7 @@ func init() {
 	engine.Register(&engine.Check{
 		ID:    "C20",
 		Level: "model_checking",
-		Rule: "deviation-bounded exploration of map-iteration choice points: package zygo is rebuilt (overlay, /repo untouched) with every range over a map routed through a chooser; for every program of a corpus (the repository's script tests that do not use time/random/files/processes + 21 programs exercising printers, encodings, registries, symbols, error texts) " +
+		Rule: "deviation-bounded exploration of map-iteration choice points: package zygo is rebuilt (overlay, /repo untouched) with every range over a map routed through a chooser; for every program of a corpus (the repository's script tests that do not use time/random/files/processes + 24 programs exercising printers, encodings, registries, symbols, error texts) " +
 			"the default run (all maps in sorted order, interpreter construction included) records the choice points, then every single deviation (reverse, rotate by 1, rotate by half, swap first two; all permutations for <=3 keys) is executed [thorough: + all pairs of reversals]; " +
 			"value, captured stdout and error text must equal the default run's; each program is also re-run in the same process and in a fresh process; states = distinct (program, observation) pairs, transitions = executions",
 		Assumptions: []string{"pointer values, dates and monotonic-clock readings are scrubbed from the compared text", "maps keyed by interface{} (1 site, a debug dump) and maps inside third-party modules are not controlled"},
